@@ -15,6 +15,7 @@ pub struct Style {
     pub comments: bool,
     pub subject_to: bool,
     pub tight: bool, // fewer spaces
+    pub decimal_points: bool, // integral literals sometimes written 3.0
 }
 
 impl Style {
@@ -28,6 +29,7 @@ impl Style {
             comments: rng.gen_bool(0.3),
             subject_to: rng.gen_bool(0.2),
             tight: rng.gen_bool(0.2),
+            decimal_points: rng.gen_bool(0.25),
         }
     }
     pub fn plain() -> Style {
@@ -40,6 +42,7 @@ impl Style {
             comments: false,
             subject_to: false,
             tight: false,
+            decimal_points: false,
         }
     }
 }
@@ -48,6 +51,9 @@ pub fn num_text(f: f64) -> String {
     let a = f.abs();
     if a == a.trunc() && a < 1e15 {
         format!("{}", a as i64)
+    } else if a == a.trunc() && a.is_finite() {
+        // an integer literal has to fit 64 bits: large integral values are written as decimals
+        format!("{:.1}", a)
     } else {
         let s = format!("{}", a);
         if s.contains('e') || s.contains("inf") || s.contains("NaN") {
@@ -81,6 +87,9 @@ impl<'a> Printer<'a> {
             let n = format!("q{}", self.consts.len() + 1);
             self.consts.push((n.clone(), a));
             return n;
+        }
+        if self.style.decimal_points && a == a.trunc() && a < 1e15 && self.rng.gen_bool(0.3) {
+            return format!("{}.0", a as i64);
         }
         num_text(a)
     }
